@@ -63,11 +63,14 @@ func (o c03Opts) oracle() c03oOpts {
 
 var c03StubLabels = []string{"text/css", "application/javascript", "text/javascript", "image/svg+xml", "application/mathml+xml", "text/html", "application/json", "application/ld+json", "module"}
 
-func c03Stub(label string) minify.MinifierFunc {
+func c03Stub(label string, dropBackslash bool) minify.MinifierFunc {
 	return func(_ *minify.M, w io.Writer, r io.Reader, params map[string]string) error {
 		b, err := io.ReadAll(r)
 		if err != nil {
 			return err
+		}
+		if dropBackslash {
+			b = bytes.ReplaceAll(b, []byte{'\\'}, nil)
 		}
 		fl := "-"
 		if params["inline"] == "1" {
@@ -81,14 +84,32 @@ func c03Stub(label string) minify.MinifierFunc {
 // c03Registry: stub=false → no sub-minifier at all (everything embedded passes through);
 // stub=true → a recording stub for every media type
 func c03Registry(stub bool) *minify.M {
-	m := minify.New()
 	if stub {
+		return c03RegistryMode(1)
+	}
+	return c03RegistryMode(0)
+}
+
+// c03RegistryMode: 0 no sub-minifier, 1 recording stubs, 2 recording stubs that also drop every backslash of the
+// payload (`<\/script>` → `</script>`, `<!\--` → `<!--`: results that html.go's rawTextEndsAtEnd must reject)
+func c03RegistryMode(mode int) *minify.M {
+	m := minify.New()
+	if mode != 0 {
 		for _, l := range c03StubLabels {
-			m.AddFunc(l, c03Stub(l))
+			m.AddFunc(l, c03Stub(l, mode == 2))
 		}
-		m.AddFuncRegexp(regexp.MustCompile(`.*`), c03Stub("?"))
+		m.AddFuncRegexp(regexp.MustCompile(`.*`), c03Stub("?", mode == 2))
 	}
 	return m
+}
+
+func c03RunRealMode(in []byte, o c03Opts, mode int) (out []byte, err error, crash string) {
+	crash = h.Safely(20e9, func() {
+		var w bytes.Buffer
+		err = o.minifier().Minify(c03RegistryMode(mode), &w, bytes.NewReader(parse.Copy(in)), nil)
+		out = w.Bytes()
+	})
+	return
 }
 
 func c03RunReal(in []byte, o c03Opts, stub bool) (out []byte, err error, crash string) {
@@ -222,6 +243,13 @@ func c03ViewportSpaces(in []byte) []byte {
 }
 
 func c03Ext(toks []c03Tok, o c03Opts, stub bool) string {
+	if stub {
+		return c03ExtMode(toks, o, 1)
+	}
+	return c03ExtMode(toks, o, 0)
+}
+
+func c03ExtMode(toks []c03Tok, o c03Opts, mode int) string {
 	type key struct{ k, in string }
 	seen := map[key]bool{}
 	var gs [][][]byte
@@ -233,7 +261,7 @@ func c03Ext(toks []c03Tok, o c03Opts, stub bool) string {
 		seen[k] = true
 		gs = append(gs, [][]byte{[]byte(kind), parse.Copy(in), parse.Copy(out)})
 	}
-	m := c03Registry(stub)
+	m := c03RegistryMode(mode)
 	for _, t := range toks {
 		switch t.kind {
 		case 'S':
@@ -320,7 +348,7 @@ func (g *c03Gen) text() {
 }
 func (g *c03Gen) comment() {
 	if g.r.Chance(8) {
-		g.sb.WriteString(g.r.Pick([]string{"<!-- c -->", "<!---->", "<!-- a -- b -->", "<!--[if IE]><p>x</p><![endif]-->", "<!--#include x -->", "<!--[if !IE]>--><!--<![endif]-->"}))
+		g.sb.WriteString(g.r.Pick([]string{"<!-- c -->", "<!---->", "<!-- a -- b -->", "<!--[if IE]><p>x</p><![endif]-->", "<!--#include x -->", "<!--[if !IE]>--><!--<![endif]-->", "<!--[if IE]><a title=\"--&gt;\">x</a><![endif]-->", "<!--[if IE]><a title=\"--!&gt;\">x</a> <![endif]-->", "<!--[if IE]><a title=\"-&gt;\">x</a>  <b>y</b><![endif]-->"}))
 	}
 }
 
@@ -464,11 +492,11 @@ func (g *c03Gen) special(d int) {
 	switch g.r.Intn(14) {
 	case 0:
 		g.open("script")
-		g.sb.WriteString(g.r.Pick([]string{"", "x()", " a < b && c ", "var s='<b>';", "/* &amp; */ f( )"}))
+		g.sb.WriteString(g.r.Pick([]string{"", "x()", " a < b && c ", "var s='<b>';", "/* &amp; */ f( )", "s='<\\/script>'", "s='<\\/SCRIPT >x'", "<!\\--<script>x", "<!--<script>\\</script>-->", "a<!--b<\\/script>c", "<!-->x<\\/script", "s='<\\/scriptx>'"}))
 		g.close("script")
 	case 1:
 		g.open("style")
-		g.sb.WriteString(g.r.Pick([]string{"", "a{b:c}", " p > q { x : y } ", "a:before{content:\"&amp;  x\"}"}))
+		g.sb.WriteString(g.r.Pick([]string{"", "a{b:c}", " p > q { x : y } ", "a:before{content:\"&amp;  x\"}", "a{b:\"<\\/style>\"}", "a{b:< \\/style >}", "a{b:<\\/STYLE}", "<!--a{b:<\\/styles>}-->"}))
 		g.close("style")
 	case 2:
 		g.open("textarea")
@@ -546,7 +574,7 @@ func (g *c03Gen) special(d int) {
 		}
 	case 9:
 		g.open("iframe")
-		g.sb.WriteString(g.r.Pick([]string{"", " <p>x</p> ", "a  b"}))
+		g.sb.WriteString(g.r.Pick([]string{"", " <p>x</p> ", "a  b", "<\\/iframe><p>x", "<\\/ifram>"}))
 		g.close("iframe")
 	case 10:
 		g.open("canvas")
@@ -804,7 +832,7 @@ type c03DocCase struct {
 	name string
 	doc  []byte
 	mask int
-	stub bool
+	stub int // 0 no sub-minifier, 1 recording stubs, 2 stubs that drop backslashes
 	out  []byte
 }
 
@@ -837,9 +865,15 @@ func c03StageLoop(c *Ctx, docs [][]byte, names []string) error {
 			if allOpts {
 				mask = k<<2 | mask&0x43
 			}
-			stub := r.Chance(35)
+			sm := 0
+			if r.Chance(35) {
+				sm = 1
+				if r.Chance(40) {
+					sm = 2 // stubs whose results can end the raw text element early / leave it open
+				}
+			}
 			o := c03OptsOf(mask)
-			out, err, crash := c03RunReal(doc, o, stub)
+			out, err, crash := c03RunRealMode(doc, o, sm)
 			if crash != "" {
 				c.R.Add(h.Finding{Stage: st.Name, Kind: "crash", What: crash, Input: h.Q(doc), Hex: h.Hex(doc), Config: o.String()})
 				continue
@@ -848,12 +882,8 @@ func c03StageLoop(c *Ctx, docs [][]byte, names []string) error {
 				errs++
 				continue
 			}
-			sm := 0
-			if stub {
-				sm = 1
-			}
-			cases = append(cases, c03DocCase{names[i], doc, mask, stub, out})
-			lines = append(lines, "model.c03.minify "+h.Int(int64(mask))+" "+h.Int(int64(sm))+" "+c03Ext(toks, o, stub)+" "+enc)
+			cases = append(cases, c03DocCase{names[i], doc, mask, sm, out})
+			lines = append(lines, "model.c03.minify "+h.Int(int64(mask))+" "+h.Int(int64(sm))+" "+c03ExtMode(toks, o, sm)+" "+enc)
 		}
 	}
 	rep, err := h.Eval(lines)
